@@ -187,6 +187,12 @@ func shapeCorners() []*Case {
 			mk(route, func(k *Case) { k.J.Nonce = "foreign" }),
 			mk(route, func(k *Case) { k.J.Nonce = "empty" }),
 			mk(route, func(k *Case) { k.J.Nonce = "otherprov" }),
+			mk(route, func(k *Case) { k.J.Nonce = "near-pad" }),
+			mk(route, func(k *Case) { k.J.Nonce = "near-pad2" }),
+			mk(route, func(k *Case) { k.J.Nonce = "near-case" }),
+			mk(route, func(k *Case) { k.J.Nonce = "near-trunc" }),
+			mk(route, func(k *Case) { k.J.Nonce = "near-space" }),
+			mk(route, func(k *Case) { k.J.Nonce = "near-lead" }),
 			mk(route, func(k *Case) { k.J.URL = "other" }),
 			mk(route, func(k *Case) { k.J.URL = "absent" }),
 			mk(route, func(k *Case) { k.J.URL = "nonstring" }),
@@ -266,7 +272,7 @@ func genShape(r *c.Rng) *Case {
 			// algorithm of another family than the key / other size
 			k.J.Alg = c.Pick(r, []string{"RS256", "PS256", "PS384", "RS512", "ES256", "ES384", "ES512", "EdDSA"})
 		case 4:
-			k.J.Nonce = c.Pick(r, []string{"reused", "foreign", "empty", "absent", "otherprov"})
+			k.J.Nonce = c.Pick(r, []string{"reused", "foreign", "empty", "absent", "otherprov", "near-pad", "near-pad2", "near-case", "near-trunc", "near-space", "near-lead"})
 		case 5:
 			k.J.URL = c.Pick(r, []string{"other", "absent", "nonstring", "case-id", "case-id", "case-path", "case-scheme", "case-host"})
 		case 6:
